@@ -190,6 +190,11 @@ impl DS {
             let byte = u8::from_str_radix(byte_str, 16)?;
             digest.push(byte);
         }
+        if !s.is_empty() {
+            return Err(ParseError::Message(
+                "digest has an odd number of hexadecimal digits",
+            ));
+        }
         Ok(Self::new(tag, algorithm, digest_type, digest))
     }
 
